@@ -304,7 +304,10 @@ func (s *Sim) startRPC(rs *rpcState) {
 	}
 	rs.started = true
 	if s.ended {
-		// the run is being torn down: never leave a live context behind
+		// the run is being torn down: never leave a live context behind -
+		// and say so, or the oracles take what this call then goes through
+		// for the library's doing
+		s.endCtx(rs, "end")
 		rs.cancel()
 	}
 }
